@@ -74,8 +74,11 @@ def run(ctx):
     else:
         cases = gen_cases(ctx, 4000 if ctx.quick() else 60000)
     impl = ctx.harness('retry', [f'{mn} {mx} {ops}' for mn, mx, ops in cases], shards=8)
-    both = ctx.coq_eval(['Base.Show', 'Model.Retry', 'Spec.RetrySpec'], FN, [to_coq(c) for c in cases],
-                        case_type='N * N * list op', preamble='Local Open Scope string_scope.', per_shard=500)
+    # evaluated in batches of 8000 so that at most 16 coqc processes of 500 cases each run at a time (bounded memory)
+    both = []
+    for k in range(0, len(cases), 8000):
+        both += ctx.coq_eval(['Base.Show', 'Model.Retry', 'Spec.RetrySpec'], FN, [to_coq(c) for c in cases[k:k + 8000]],
+                             case_type='N * N * list op', preamble='Local Open Scope string_scope.', per_shard=500)
     n_model_mismatch = n_spec_mismatch = 0
     classes = {'in_domain': 0, 'min>max': 0, 'overflow_region': 0, 'panic': 0, 'capped': 0, 'reset_used': 0}
     for c, i in zip(cases, impl):
@@ -216,6 +219,17 @@ def run_task_level(ctx):
         return
     else:
         cases = task_cases(ctx, 48 if ctx.quick() else 400)
+        n_exhaustive = 0
+        if not ctx.quick():
+            # thorough: additionally ALL connect-outcome sequences of length <= 4 for every task variant (20/70 ms)
+            import itertools
+            certs = os.path.join(vlib.REPO, 'certs', 'ca_chain')
+            for variant, letters in (('tcp', 'rcs'), (f'tls:{certs}', 'rc'), ('rtu', 'ro'), ('rtuserver', 'ro')):
+                for ln in (1, 2, 3, 4):
+                    for sc in itertools.product(letters, repeat=ln):
+                        cases.append((variant, 20, 70, ''.join(sc)))
+                        n_exhaustive += 1
+        ctx.coverage['task_level_exhaustive_sequences_up_to_length_4'] = n_exhaustive
     impl, both = task_eval(ctx, cases)
     bad = 0
     for c, i, b in zip(cases, impl, both):
